@@ -230,7 +230,7 @@ func scenario(p params, bounds []int) *vexp.Scenario {
 func build(tier string) []*vexp.Scenario {
 	bounds := []int{0, 1}
 	if tier == "thorough" {
-		bounds = []int{0, 1, 2}
+		bounds = []int{0, 1, 2, 3}
 	}
 	var out []*vexp.Scenario
 	for _, askers := range []int{1, 2} {
